@@ -24,13 +24,26 @@ typedef std::vector<char> Dense;
 static std::string dense_str(const Dense &d) { std::string s; for (size_t i = 0; i < d.size(); i++) if (d[i]) s += std::to_string(i) + " "; return s; }
 static std::string v2_str(const V2 &v) { std::string s; for (auto x : v) s += std::to_string(x) + " "; return s; }
 
-static bool same(const V2 &v, const Dense &d, size_t B, std::string &why) {
-    std::vector<size_t> want; for (size_t i = 0; i < d.size(); i++) if (d[i]) want.push_back(B + i);
+static bool same(const V2 &v, const Dense &d, const std::vector<size_t> &cmap, std::string &why) {
+    std::vector<size_t> want; for (size_t i = 0; i < d.size(); i++) if (d[i]) want.push_back(cmap[i]);
     std::vector<size_t> got(v.begin(), v.end());
     for (size_t i = 1; i < got.size(); i++) if (!(got[i - 1] < got[i])) { why = "coordinates not strictly increasing: " + v2_str(v); return false; }
     if (got != want) { why = "contents {" + v2_str(v) + "} differ from dense model {" + dense_str(d) + "}"; return false; }
     if (v.size() != want.size()) { why = "size() = " + std::to_string(v.size()) + " but " + std::to_string(want.size()) + " coordinates are 1"; return false; }
     return true;
+}
+
+
+// coordinate map: dense position q -> library coordinate, strictly increasing, with a base and occasional huge GAPS between
+// neighbouring positions (2^31+1, 2^32, 2^32+2^31, 2^40): two coordinates far apart then meet inside one merge
+static std::vector<size_t> make_coordinate_map(vf::Rng &r, size_t D, std::string &desc) {
+    static const size_t bases[] = {0, 0, 0, 250, 65530, 2147483640ULL, 4294967290ULL, 1099511627776ULL};
+    static const size_t jumps[] = {2147483649ULL, 4294967296ULL, 6442450944ULL, 1099511627776ULL, 8589934592ULL};
+    size_t B = bases[r.below(8)]; std::vector<size_t> m(D); size_t off = B; int gaps = 0;
+    bool with_gaps = r.chance(0.3);
+    for (size_t q = 0; q < D; q++) { if (with_gaps && q > 0 && r.chance(D <= 8 ? 0.4 : 3.0 / D)) { off += jumps[r.below(5)]; gaps++; } m[q] = q + off; }
+    desc = "base " + std::to_string(B) + ", " + std::to_string(gaps) + " gaps >= 2^31";
+    return m;
 }
 
 static void mode_c17(const Args &a) {
@@ -42,9 +55,8 @@ static void mode_c17(const Args &a) {
         size_t D = (size_t) r.range(1, (ll) a.geti("max_dim", 300));
         if (r.chance(0.3)) D = (size_t) r.range(1, 8);
         else if (r.chance(0.02)) D = (size_t) r.range(1000, 6000);   // long vectors: capacity / block-size thresholds
-        // coordinates are B+q: the dense model is indexed by q, the library sees indices around 2^8, 2^16, 2^31, 2^32, 2^40 (narrowing bugs)
-        static const size_t bases[] = {0, 0, 0, 250, 65530, 2147483640ULL, 4294967290ULL, 1099511627776ULL};
-        const size_t B = bases[r.below(8)];
+        std::string cdesc; const std::vector<size_t> cmap = make_coordinate_map(r, D, cdesc);
+        const bool has_gaps = cdesc.find(" 0 gaps") == std::string::npos;
         int pool = (int) r.range(2, 8);
         int nops = (int) r.range(1, (ll) a.geti("max_ops", 200));
         std::vector<V2> vs(pool); std::vector<Dense> ds(pool, Dense(D, 0));
@@ -53,12 +65,12 @@ static void mode_c17(const Args &a) {
             std::string h; for (auto &x : hist) h += x + "; ";
             co.viol("spvecgf2:" + kind, msg, J().num("dimension", (ll) D).num("pool", pool).str("history", h).done(), "history seed=" + std::to_string(a.seed) + " case=" + std::to_string(i));
             bad = true; };
-        auto randset = [&](std::set<size_t> &st, Dense &d) { d.assign(D, 0); double p = r.real(); for (size_t q = 0; q < D; q++) if (r.chance(p * p)) { st.insert(B + q); d[q] = 1; } };
+        auto randset = [&](std::set<size_t> &st, Dense &d) { d.assign(D, 0); double p = r.real(); for (size_t q = 0; q < D; q++) if (r.chance(p * p)) { st.insert(cmap[q]); d[q] = 1; } };
         for (int op = 0; op < nops && !bad; op++) {
             int x = (int) r.below(pool), y = (int) r.below(pool), z = (int) r.below(pool);
             int kind = (int) r.below(14); std::string why; std::string name;
             switch (kind) {
-            case 0: { size_t q = r.below(D); name = "unit"; hist.push_back("v" + std::to_string(x) + "=unit(" + std::to_string(q) + ")"); vs[x] = V2(B + q); ds[x].assign(D, 0); ds[x][q] = 1; break; }
+            case 0: { size_t q = r.below(D); name = "unit"; hist.push_back("v" + std::to_string(x) + "=unit(" + std::to_string(q) + ")"); vs[x] = V2(cmap[q]); ds[x].assign(D, 0); ds[x][q] = 1; break; }
             case 1: { std::set<size_t> st; Dense d; randset(st, d); name = "from_set"; hist.push_back("v" + std::to_string(x) + "=fromset(|" + std::to_string(st.size()) + "|)"); V2 t(st); vs[x] = t; ds[x] = d; break; }
             case 2: { name = "copy_construct"; hist.push_back("v" + std::to_string(x) + "=copy(v" + std::to_string(y) + ")"); V2 t(vs[y]); Dense d = ds[y]; vs[x] = t; ds[x] = d; break; }
             case 3: { name = "move_construct"; hist.push_back("v" + std::to_string(x) + "=V(move(v" + std::to_string(y) + ")); v" + std::to_string(y) + ".clear()"); Dense d = ds[y]; V2 t(std::move(vs[y]));
@@ -77,10 +89,10 @@ static void mode_c17(const Args &a) {
             default: { name = "chain"; hist.push_back("v" + std::to_string(z) + "=(v" + std::to_string(x) + "+v" + std::to_string(y) + ")+v" + std::to_string(z)); Dense d(D); for (size_t q = 0; q < D; q++) d[q] = ds[x][q] ^ ds[y][q] ^ ds[z][q]; vs[z] = (vs[x] + vs[y]) + vs[z]; ds[z] = d; break; }
             }
             opcount[name]++; ops_total++;
-            for (int q = 0; q < pool && !bad; q++) if (!same(vs[q], ds[q], B, why)) fail("contents", "after '" + hist.back() + "': v" + std::to_string(q) + " " + why + " [coordinate base " + std::to_string(B) + "]");
+            for (int q = 0; q < pool && !bad; q++) if (!same(vs[q], ds[q], cmap, why)) fail("contents", "after '" + hist.back() + "': v" + std::to_string(q) + " " + why + " [coordinates: " + cdesc + "]");
         }
         co.hash = mix(case_seed(a.seed, "C17h", i), D); co.nontrivial = nops >= 5;
-        co.tag(D <= 8 ? "dim<=8" : D <= 64 ? "dim<=64" : D < 1000 ? "dim>64" : "dim>=1000"); co.tag(B == 0 ? "base:0" : B < 70000 ? "base:2^8..2^16" : "base:>=2^31");
+        co.tag(D <= 8 ? "dim<=8" : D <= 64 ? "dim<=64" : D < 1000 ? "dim>64" : "dim>=1000"); co.tag(cmap.empty() || cmap[0] == 0 ? "base:0" : cmap[0] < 70000 ? "base:2^8..2^16" : "base:>=2^31"); if (has_gaps) co.tag("coordinate_gaps>=2^31");
         if ((int) (i - a.from) < a.samples) { std::string h; for (size_t q = 0; q < hist.size() && q < 12; q++) h += hist[q] + "; "; co.sample = J().num("dimension", (ll) D).num("pool", pool).num("operations", nops).str("history_prefix", h).done(); }
         co.end();
     }
@@ -250,8 +262,8 @@ static void mode_c18prime(const Args &a) { // case i < blocks: block of 1000 con
 
 // SpVecFP histories
 template<class P>
-static bool fp_same(const parmcb::SpVecFP<P> &v, const std::vector<ll> &d, ll p, std::string &why) {
-    std::vector<std::pair<size_t, ll>> want; for (size_t i = 0; i < d.size(); i++) if (d[i]) want.push_back({i, d[i]});
+static bool fp_same(const parmcb::SpVecFP<P> &v, const std::vector<ll> &d, ll p, const std::vector<size_t> &cmap, std::string &why) {
+    std::vector<std::pair<size_t, ll>> want; for (size_t i = 0; i < d.size(); i++) if (d[i]) want.push_back({cmap[i], d[i]});
     std::vector<std::pair<size_t, ll>> got;
     for (auto it = v.begin(); it != v.end(); ++it) { P val = boost::get<1>(*it); if (val < 1 || val > P(p - 1)) { why = "entry value " + tstr(val) + " outside 1..p-1 at index " + std::to_string(boost::get<0>(*it)); return false; } got.push_back({boost::get<0>(*it), (ll) static_cast<long long>(val)}); }
     for (size_t i = 1; i < got.size(); i++) if (!(got[i - 1].first < got[i].first)) { why = "indices not strictly increasing"; return false; }
@@ -268,6 +280,7 @@ static void fp_history(CaseOut &co, Rng &r, const Args &a, uint64_t i, long &ops
     ll amax = std::is_same<P, int>::value ? ((1LL << 31) - 1) / std::max<ll>(1, p - 1) : (std::is_same<P, long long>::value ? ((1ULL << 62) / (unsigned long long) std::max<ll>(1, p - 1)) : (1LL << 60));
     if (amax < 1) amax = 1;
     size_t D = (size_t) r.range(1, 40); int pool = (int) r.range(2, 6); int nops = (int) r.range(1, (ll) a.geti("max_ops", 120));
+    std::string cdesc; const std::vector<size_t> cmap = make_coordinate_map(r, D, cdesc);
     std::vector<parmcb::SpVecFP<P>> vs(pool, parmcb::SpVecFP<P>(P(p))); std::vector<std::vector<ll>> ds(pool, std::vector<ll>(D, 0));
     std::vector<std::string> hist; bool bad = false;
     auto fail = [&](const std::string &kind, const std::string &msg) { std::string h; for (auto &x : hist) h += x + "; ";
@@ -277,7 +290,7 @@ static void fp_history(CaseOut &co, Rng &r, const Args &a, uint64_t i, long &ops
         int x = (int) r.below(pool), y = (int) r.below(pool), z = (int) r.below(pool); int kind = (int) r.below(11); std::string why;
         auto scalar = [&]() -> ll { int k = (int) r.below(6); if (k == 0) return 0; if (k == 1) return p <= amax ? p * r.range(-2, 2) : 0; if (k == 2) return -r.range(1, std::min<ll>(amax, 50)); if (k == 3) return r.range(1, std::min<ll>(amax, 50)); ll v = r.range(1, amax); return r.chance(0.5) ? -v : v; };
         switch (kind) {
-        case 0: case 1: { size_t q = r.below(D); hist.push_back("v" + std::to_string(x) + "=unit(" + std::to_string(q) + ")"); vs[x] = q; ds[x].assign(D, 0); ds[x][q] = 1 % p; break; }
+        case 0: case 1: { size_t q = r.below(D); hist.push_back("v" + std::to_string(x) + "=unit(" + std::to_string(q) + ")"); vs[x] = cmap[q]; ds[x].assign(D, 0); ds[x][q] = 1 % p; break; }
         case 2: { hist.push_back("v" + std::to_string(z) + "=v" + std::to_string(x) + "+v" + std::to_string(y)); std::vector<ll> d(D); for (size_t q = 0; q < D; q++) d[q] = mod((__int128) ds[x][q] + ds[y][q]); parmcb::SpVecFP<P> t = vs[x] + vs[y]; vs[z] = t; ds[z] = d; break; }
         case 3: case 4: { hist.push_back("v" + std::to_string(x) + "+=v" + std::to_string(y)); std::vector<ll> d(D); for (size_t q = 0; q < D; q++) d[q] = mod((__int128) ds[x][q] + ds[y][q]); vs[x] += vs[y]; ds[x] = d; break; }
         case 5: { ll s = scalar(); hist.push_back("v" + std::to_string(z) + "=v" + std::to_string(x) + "*" + std::to_string(s)); std::vector<ll> d(D); for (size_t q = 0; q < D; q++) d[q] = mod((__int128) ds[x][q] * s); parmcb::SpVecFP<P> t = vs[x] * P(s); vs[z] = t; ds[z] = d; break; }
@@ -289,9 +302,9 @@ static void fp_history(CaseOut &co, Rng &r, const Args &a, uint64_t i, long &ops
         default: { hist.push_back("v" + std::to_string(x) + ".clear()"); vs[x].clear(); ds[x].assign(D, 0); break; }
         }
         ops_total++;
-        for (int q = 0; q < pool && !bad; q++) if (!fp_same<P>(vs[q], ds[q], p, why)) fail("contents", "after '" + hist.back() + "': v" + std::to_string(q) + " " + why);
+        for (int q = 0; q < pool && !bad; q++) if (!fp_same<P>(vs[q], ds[q], p, cmap, why)) fail("contents", "after '" + hist.back() + "': v" + std::to_string(q) + " " + why + " [coordinates: " + cdesc + "]");
     }
-    co.tag(std::string("P:") + tname<P>()); co.tag(p == 2 ? "p=2" : p < 100 ? "p<100" : "p>=100");
+    co.tag(std::string("P:") + tname<P>()); co.tag(p == 2 ? "p=2" : p < 100 ? "p<100" : "p>=100"); if (cdesc.find(" 0 gaps") == std::string::npos) co.tag("coordinate_gaps>=2^31");
     if ((int) (i - a.from) < a.samples) { std::string h; for (size_t q = 0; q < hist.size() && q < 10; q++) h += hist[q] + "; "; co.sample = J().str("P", tname<P>()).num("p", p).num("dimension", (ll) D).num("operations", nops).str("history_prefix", h).done(); }
     co.nontrivial = nops >= 5;
 }
